@@ -44,3 +44,7 @@ pub mod shims_nondet {
     #[verifier::external_body]
     pub fn nondet() -> bool { unimplemented!() }
 }
+
+// (vstd already declares core::time::Duration as an external type)
+pub uninterp spec fn nanos(d: std::time::Duration) -> int;
+//@trusted std::time::Duration: opaque value (only passed through, never computed with in the verified functions)
